@@ -741,6 +741,20 @@ def N15():
     return a[0] == 'ok' and b[0] == 'ok' and a[1] == b[1], f"a datetime object for a date field: from_data -> {a[:2]!r}, constructor -> {b[:2]!r}"
 
 
+def D40():
+    import pane
+    from fractions import Fraction
+    T = t.TypeVar('T')
+    class Box(pane.PaneBase, t.Generic[T]):
+        x: T
+    A = Box[((t.Union[Fraction, str], str),)]
+    B = Box[((t.Union[str, Fraction], str),)]
+    a = _outcome(lambda: pane.from_data({'x': ['1/2', 's']}, A).x)
+    b = _outcome(lambda: pane.from_data({'x': ['1/2', 's']}, B).x)
+    holds = A is not B and a == ('ok', (Fraction(1, 2), 's')) and b == ('ok', ('1/2', 's'))
+    return holds, f"Box[((Union[Fraction, str], str),)] then Box[((Union[str, Fraction], str),)]: same class {A is B}; {a!r}, {b!r}"
+
+
 WITNESSES = {k: v for k, v in dict(globals()).items() if k[:1] in 'DNK' and k[1:].isdigit() and callable(v)}
 
 if __name__ == '__main__':
